@@ -1,1 +1,281 @@
-//! sub-process sandbox (filled in with C12/C13)
+//! sub-process sandbox: cases that may hang, abort or exhaust memory run in worker processes of this
+//! binary (`vharness --worker <ID> <tier> <mode>`). protocol (lines):
+//!   parent -> worker : `RUN <lo> <hi>`
+//!   worker -> parent : `END <json Stats>` after all cases lo..hi ran
+//! a block that times out or dies is re-run case by case so that the verdict is per case.
+use super::{panic_message, Stats};
+use std::io::{BufRead, BufReader, Write};
+use std::process::{Child, ChildStdin, Command, Stdio};
+use std::sync::atomic::{AtomicU64, Ordering};
+use std::sync::mpsc::{channel, Receiver, RecvTimeoutError};
+use std::sync::{Arc, Mutex};
+use std::time::{Duration, Instant};
+
+#[derive(Clone, Debug)]
+pub enum Fate {
+    Hang { waited_ms: u64 },
+    Died { how: String },
+}
+
+pub struct SandboxCfg {
+    pub worker_args: Vec<String>,
+    pub n_workers: usize,
+    pub case_timeout: Duration,
+    pub block: u64,
+    /// overall wall budget; when exceeded remaining blocks are skipped and the run is marked capped
+    pub budget: Duration,
+}
+
+struct Worker {
+    child: Child,
+    stdin: ChildStdin,
+    rx: Receiver<String>,
+}
+
+fn spawn(args: &[String]) -> Result<Worker, String> {
+    let exe = std::env::current_exe().map_err(|e| e.to_string())?;
+    let mut child = Command::new(exe)
+        .args(args)
+        .stdin(Stdio::piped())
+        .stdout(Stdio::piped())
+        .stderr(Stdio::null())
+        .spawn()
+        .map_err(|e| e.to_string())?;
+    let stdin = child.stdin.take().ok_or("no stdin")?;
+    let stdout = child.stdout.take().ok_or("no stdout")?;
+    let (tx, rx) = channel();
+    std::thread::spawn(move || {
+        let reader = BufReader::new(stdout);
+        for line in reader.lines() {
+            match line {
+                Ok(l) => {
+                    if tx.send(l).is_err() {
+                        break;
+                    }
+                }
+                Err(_) => break,
+            }
+        }
+    });
+    Ok(Worker { child, stdin, rx })
+}
+
+enum BlockResult {
+    Done(Stats),
+    Timeout,
+    Died(String),
+}
+
+fn kill(w: &mut Worker) -> String {
+    let _ = w.child.kill();
+    match w.child.wait() {
+        Ok(status) => describe_status(&status),
+        Err(e) => format!("wait failed: {}", e),
+    }
+}
+
+fn describe_status(status: &std::process::ExitStatus) -> String {
+    use std::os::unix::process::ExitStatusExt;
+    if let Some(sig) = status.signal() {
+        let name = match sig {
+            6 => "SIGABRT (abort, e.g. allocation failure or double panic)",
+            9 => "SIGKILL",
+            11 => "SIGSEGV (e.g. stack overflow)",
+            7 => "SIGBUS",
+            _ => "signal",
+        };
+        format!("killed by signal {} {}", sig, name)
+    } else {
+        format!("exit status {:?}", status.code())
+    }
+}
+
+fn run_block(w: &mut Worker, lo: u64, hi: u64, timeout: Duration) -> BlockResult {
+    if writeln!(w.stdin, "RUN {} {}", lo, hi).is_err() || w.stdin.flush().is_err() {
+        let how = match w.child.wait() {
+            Ok(s) => describe_status(&s),
+            Err(e) => e.to_string(),
+        };
+        return BlockResult::Died(how);
+    }
+    let deadline = Instant::now() + timeout;
+    loop {
+        let now = Instant::now();
+        if now >= deadline {
+            return BlockResult::Timeout;
+        }
+        match w.rx.recv_timeout(deadline - now) {
+            Ok(line) => {
+                if let Some(rest) = line.strip_prefix("END ") {
+                    match serde_json::from_str::<Stats>(rest) {
+                        Ok(st) => return BlockResult::Done(st),
+                        Err(e) => return BlockResult::Died(format!("unparsable END line: {}", e)),
+                    }
+                }
+                // other lines are ignored (diagnostics)
+            }
+            Err(RecvTimeoutError::Timeout) => return BlockResult::Timeout,
+            Err(RecvTimeoutError::Disconnected) => {
+                let how = match w.child.wait() {
+                    Ok(s) => describe_status(&s),
+                    Err(e) => e.to_string(),
+                };
+                return BlockResult::Died(how);
+            }
+        }
+    }
+}
+
+/// runs cases 0..n in worker processes; returns merged statistics and the fate of every case that
+/// hung or killed its worker. machinery failures (cannot spawn) are returned as Err.
+pub fn run_cases(cfg: &SandboxCfg, n: u64) -> Result<(Stats, Vec<(u64, Fate)>), String> {
+    let next = Arc::new(AtomicU64::new(0));
+    let nblocks = n.div_ceil(cfg.block.max(1));
+    let total = Arc::new(Mutex::new(Stats::new()));
+    let fates: Arc<Mutex<Vec<(u64, Fate)>>> = Arc::new(Mutex::new(vec![]));
+    let errors: Arc<Mutex<Vec<String>>> = Arc::new(Mutex::new(vec![]));
+    let start = Instant::now();
+    let mut handles = vec![];
+    for _ in 0..cfg.n_workers.max(1) {
+        let next = next.clone();
+        let total = total.clone();
+        let fates = fates.clone();
+        let errors = errors.clone();
+        let args = cfg.worker_args.clone();
+        let case_timeout = cfg.case_timeout;
+        let block = cfg.block.max(1);
+        let budget = cfg.budget;
+        handles.push(std::thread::spawn(move || {
+            let mut w = match spawn(&args) {
+                Ok(w) => w,
+                Err(e) => {
+                    errors.lock().unwrap().push(format!("cannot spawn worker: {}", e));
+                    return;
+                }
+            };
+            let mut local = Stats::new();
+            loop {
+                let b = next.fetch_add(1, Ordering::SeqCst);
+                if b >= nblocks {
+                    break;
+                }
+                if start.elapsed() > budget {
+                    local.capped = true;
+                    local.notes.insert(format!("wall budget of {} s reached; blocks from {} on were not run", budget.as_secs(), b));
+                    break;
+                }
+                let lo = b * block;
+                let hi = ((b + 1) * block).min(n);
+                let block_timeout = case_timeout + Duration::from_millis(20 * (hi - lo));
+                match run_block(&mut w, lo, hi, block_timeout) {
+                    BlockResult::Done(st) => local.merge(st),
+                    other => {
+                        // isolate: restart the worker and run the block case by case
+                        if let BlockResult::Timeout = other {
+                            let _ = kill(&mut w);
+                        }
+                        w = match spawn(&args) {
+                            Ok(w) => w,
+                            Err(e) => {
+                                errors.lock().unwrap().push(format!("cannot respawn worker: {}", e));
+                                return;
+                            }
+                        };
+                        for i in lo..hi {
+                            let mut attempt = 0;
+                            loop {
+                                let t = if attempt == 0 { case_timeout } else { case_timeout * 4 };
+                                let t0 = Instant::now();
+                                match run_block(&mut w, i, i + 1, t) {
+                                    BlockResult::Done(st) => {
+                                        local.merge(st);
+                                        break;
+                                    }
+                                    BlockResult::Timeout => {
+                                        let _ = kill(&mut w);
+                                        w = match spawn(&args) {
+                                            Ok(w) => w,
+                                            Err(e) => {
+                                                errors.lock().unwrap().push(format!("cannot respawn worker: {}", e));
+                                                return;
+                                            }
+                                        };
+                                        if attempt == 0 {
+                                            attempt = 1;
+                                            continue;
+                                        }
+                                        fates.lock().unwrap().push((i, Fate::Hang { waited_ms: t0.elapsed().as_millis() as u64 }));
+                                        break;
+                                    }
+                                    BlockResult::Died(how) => {
+                                        w = match spawn(&args) {
+                                            Ok(w) => w,
+                                            Err(e) => {
+                                                errors.lock().unwrap().push(format!("cannot respawn worker: {}", e));
+                                                return;
+                                            }
+                                        };
+                                        fates.lock().unwrap().push((i, Fate::Died { how }));
+                                        break;
+                                    }
+                                }
+                            }
+                        }
+                    }
+                }
+            }
+            let _ = kill(&mut w);
+            total.lock().unwrap().merge(local);
+        }));
+    }
+    for h in handles {
+        if let Err(p) = h.join() {
+            errors.lock().unwrap().push(format!("sandbox driver thread panicked: {}", panic_message(&p)));
+        }
+    }
+    let errs = errors.lock().unwrap().clone();
+    if !errs.is_empty() {
+        return Err(errs.join("; "));
+    }
+    let st = total.lock().unwrap().clone();
+    let mut f = fates.lock().unwrap().clone();
+    f.sort_by_key(|x| x.0);
+    Ok((st, f))
+}
+
+/// worker side: reads RUN lines, runs `case(idx, stats)` for each index, answers with END lines.
+pub fn worker_loop(mut case: impl FnMut(u64, &mut Stats)) -> i32 {
+    // address-space limit so that unbounded allocation ends in an abort instead of taking the machine down
+    let mem: u64 = std::env::var("VERIF_WORKER_MEM_MB").ok().and_then(|s| s.parse().ok()).unwrap_or(6144);
+    unsafe {
+        let lim = libc::rlimit { rlim_cur: mem * 1024 * 1024, rlim_max: mem * 1024 * 1024 };
+        libc::setrlimit(libc::RLIMIT_AS, &lim);
+    }
+    let stdin = std::io::stdin();
+    let stdout = std::io::stdout();
+    for line in stdin.lock().lines() {
+        let line = match line {
+            Ok(l) => l,
+            Err(_) => break,
+        };
+        let parts: Vec<&str> = line.split_whitespace().collect();
+        if parts.len() == 3 && parts[0] == "RUN" {
+            let lo: u64 = parts[1].parse().unwrap_or(0);
+            let hi: u64 = parts[2].parse().unwrap_or(0);
+            let mut st = Stats::new();
+            for i in lo..hi {
+                let r = std::panic::catch_unwind(std::panic::AssertUnwindSafe(|| case(i, &mut st)));
+                if let Err(p) = r {
+                    let msg = panic_message(&p);
+                    st.violation("harness", "case_panicked_outside_guard", i, || format!("case {} panicked: {}", i, msg), || serde_json::json!({"index": i}));
+                }
+            }
+            let mut out = stdout.lock();
+            let _ = writeln!(out, "END {}", serde_json::to_string(&st).unwrap_or_else(|_| "{}".into()));
+            let _ = out.flush();
+        } else if parts.first() == Some(&"QUIT") {
+            break;
+        }
+    }
+    0
+}
